@@ -19,7 +19,7 @@ Flips(f) == { [f EXCEPT ![v] = ~f[v]] : v \in TruthVars }
 TruthSets == IF InputMode = "one" THEN {AllT} ELSE IF InputMode = "two" THEN {AllT, AllF} ELSE {AllT, AllF} \cup Flips(AllT) \cup Flips(AllF)
 ArrSet == IF InputMode \in {"one", "two"} THEN {1} ELSE 1..Len(ArrVals)
 
-MyParts == { pc \in PartIds : (pc[1] * 6 + pc[2]) % ShardN = ShardI }
+MyParts == { pc \in PartIds : (pc[1] * 7 + pc[2]) % ShardN = ShardI }
 MyProgs(dummy) == UNION { ProgramsPart(pc[1], pc[2]) : pc \in MyParts }
 Init == /\ prog \in MyProgs(0)
         /\ truth \in TruthSets
@@ -56,9 +56,13 @@ Equiv ==
           /\ Matches(Extern(IF a.sig = "ret" THEN a.v ELSE Null, a.st.heap), Extern(b.ret, b.st.heap))
           /\ NoCnt(a.st.log) = NoCnt(b.st.log)
           /\ SameGlobals(a.st, b.st)
+       \* both end with the same documented error at the same point (a function defined in a branch not taken)
+       \/ /\ a.st.exc = "undefined" /\ b.st.exc = "undefined" /\ a.st.excArg = b.st.excArg
+          /\ NoCnt(a.st.log) = NoCnt(b.st.log)
+          /\ SameGlobals(a.st, b.st)
 WF == WellFormed(Lower(prog), AllLabels(Lower(prog)))
 \* no structured program of the family may be cut off by the bound (vacuity guard)
-Terminating == ExecBlock(prog, 1, NoLoc, S0, 100).st.exc = ""
+Terminating == ExecBlock(prog, 1, NoLoc, S0, 100).st.exc \in {"", "undefined"}
 
 EmitProg == (truth = AllT /\ rot = 0 /\ arrIx = 1) => PrintT(<<"PROG", ToJson(prog)>>)
 PrintInputs == PrintT(<<"INPUTS", ToJson([truthy |-> TruthyVals, falsy |-> FalsyVals, arrs |-> ArrVals, vars |-> VarList])>>)
